@@ -15,7 +15,7 @@ python3 tools/gen_lakefile.py >/dev/null
 python3-vt tools/mkmanifest.py
 git add -A
 git commit -q -m "Merge builder branch wip-$P" || true
-cd /repo
+cd /repo && git checkout -- test_reports
 BASE=$(git merge-base main fix-$P)
 N=$(git rev-list --count $BASE..fix-$P)
 echo "cherry-picking $N fix commits of $P"
